@@ -153,6 +153,13 @@ pub fn find_move(b: &mut Bitboard, m: Mv) -> Option<Move> {
     b.generate_legal_moves().into_iter().find(|x| x.to_uci_string() == u)
 }
 
+/// Find the engine's move object among its pseudo-legal moves WITHOUT any make/unmake on the board
+/// (generate_legal_moves unmakes, and unmake only restores half-move clocks up to 4095).
+pub fn find_pseudo(b: &Bitboard, m: Mv) -> Option<Move> {
+    let u = m.uci();
+    b.generate_pseudo_legal_moves().into_iter().find(|x| x.to_uci_string() == u)
+}
+
 pub fn sorted(mut v: Vec<String>) -> Vec<String> {
     v.sort();
     v
